@@ -613,6 +613,7 @@ func init() {
 			}
 		}
 		srv.Close()
+		c20NamedHost(r)
 		c20RealServer(r)
 		r.Sample(map[string]any{"conformant_stream": ev.Hex(mkValid(2, "", 0)(1)), "meaning": "next-protocol, algorithm 15, two cookies, end-of-message"})
 		r.Assume("server records carry IP literals (no resolver in the sandbox); TLS 1.3 with a self-signed certificate and InsecureSkipVerify")
@@ -623,6 +624,54 @@ func init() {
 			"and the real IP client's first NTP request after the exchange. Oracle: success only when the statement allows it and always when it demands it; keys = the server's exporter values; pool = cookies issued, in order, without reconnecting; "+
 			"server/port as named or default; every attempt after a failure opens a new connection and uses only its data. distinct_nontrivial = distinct (class, stream, segmentation) and distinct sequences", 12)
 	})
+}
+
+// c20NamedHost: the key-exchange server is configured by name ("localhost"), and its answer names
+// no NTP server: the default is the key-exchange host as an address the client can send to.
+func c20NamedHost(r *ev.Run) {
+	if ips, err := net.LookupHost("localhost"); err != nil || len(ips) == 0 {
+		r.Class("named-key-exchange-host:name does not resolve here")
+		return
+	}
+	lo := netip.MustParseAddr("127.0.0.1")
+	ke, err := peer.NewNTSKEServer(netip.AddrPortFrom(lo, 0), nil, nil)
+	if err != nil {
+		r.Class("named-key-exchange-host:cannot bind 127.0.0.1")
+		return
+	}
+	defer ke.Close()
+	kePort := uint16(ke.L.Addr().(*net.TCPAddr).Port)
+	for i, port := range []uint16{0, 4123} {
+		id := fmt.Sprintf("named%d", i)
+		if r.Only() != "" && r.Only() != id {
+			continue
+		}
+		port := port
+		ke.SetScript(func(c *peer.NTSKEConn) ([]byte, []int, int) {
+			return peer.KEMessage(15, "", port, c20Cookies(c.ID, 8)), nil, -1
+		})
+		f := &ntske.Fetcher{Log: slog.New(slog.DiscardHandler), Port: strconv.Itoa(int(kePort))}
+		f.TLSConfig = tls.Config{InsecureSkipVerify: true, ServerName: "localhost", MinVersion: tls.VersionTLS13, NextProtos: []string{"ntske/1"}}
+		ctx, cancel := context.WithTimeout(context.Background(), 10*time.Second)
+		d, err := f.FetchData(ctx)
+		cancel()
+		r.Eval(1)
+		w := map[string]any{"key_exchange_server": fmt.Sprintf("localhost:%d", kePort), "port_record": port, "error": fmt.Sprint(err), "got_server": d.Server, "got_port": d.Port}
+		if err != nil {
+			r.Violation("Fetcher.FetchData|wrong-value:conformant exchange with a key-exchange server configured by name refused", id, w)
+			continue
+		}
+		wantPort := uint16(123)
+		if port != 0 {
+			wantPort = port
+		}
+		ip := net.ParseIP(d.Server)
+		if ip == nil || !ip.IsLoopback() || d.Port != wantPort {
+			r.Violation("Fetcher.FetchData|wrong-value:NTP server or port is not the one named in the exchange (or the default)|key-exchange server configured by name, no server record", id, w)
+			continue
+		}
+		r.Class("named-key-exchange-host:default NTP server is the address of the key-exchange host")
+	}
 }
 
 // c20RealServer: the monitor as NTS-KE client of the project's own NTS-KE server (child
